@@ -28,7 +28,7 @@ KIND = {
     "R12.1": "S", "R12.2": "S",
     "R13.1": "S", "R13.2": "S",
     "R14.1": "T", "R14.2": "T", "R14.3": "T", "R14.4": "W", "R14.5": "S",
-    "R15.1": "T", "R15.2": "W", "R15.3": "W", "R15.4": "W", "R15.5": "W",
+    "R15.1": "T", "R15.2": "W", "R15.3": "W", "R15.4": "W", "R15.5": "W", "R15.6": "S",
     "R16.1": "T", "R16.2": "W", "R16.3": "W", "R16.4": "W",
     "R17.1": "W", "R17.2": "W", "R17.3": "W", "R17.4": "T", "R17.5": "W", "R17.6": "S",
     "R18.1": "W", "R18.2": "T", "R18.3a": "S", "R18.3b": "S", "R18.4": "W", "R18.5": "T", "R18.6": "T", "R18.7": "T", "R18.8": "W", "R18.9": "W",
